@@ -24,6 +24,10 @@ structure Shape where
 unmarked with `Unmark` (false) or tested with `ContainsMarked` and unmarked with
 `UnmarkDeep` (true); `cond` / `body` spell the same thing out as Go text. -/
 def shape : Op → Shape
+  -- the three compositions have no prologue of their own (`Generated.opPrologues`: form "none")
+  | .notEqual => ⟨"NotEqual", false, none, "", ""⟩
+  | .le => ⟨"LessThanOrEqualTo", false, none, "", ""⟩
+  | .ge => ⟨"GreaterThanOrEqualTo", false, none, "", ""⟩
   | .equals =>
     ⟨"Equals", true, some ("other", true),
       "val.ContainsMarked() || other.ContainsMarked()",
@@ -100,7 +104,8 @@ def shape : Op → Shape
 def Shape.entry (s : Shape) : Generated.OpPrologue :=
   { method := s.method, cond := s.cond, form := "unmark-recurse-withmarks", body := s.body }
 
-/-- every operation method (the attribute name and the needle hash do not matter here) -/
+/-- every operation method with a prologue of its own (the attribute name and the
+needle hash do not matter here) -/
 def all : List Op :=
   [.equals, .add, .sub, .mul, .div, .mod, .neg, .abs, .not, .and, .or, .lt, .gt, .index, .hasIndex, .length,
    .getAttr "", .hasElement none]
@@ -127,7 +132,7 @@ def prologue1 (rd : Bool) (core : Value → Res Value) (a : Value) : Res Value :
 /-- the unmarked core of each binary method -/
 def core2 : Op → Value → Value → Res Value
   | .equals => fun a b => equalsP a.ty a.v b.ty b.v
-  | .add => addU | .sub => subU | .mul => mulU | .div => divU | .mod => modU
+  | .add => addU | .sub => subU | .mul => mulUC | .div => divU | .mod => modU
   | .and => andU | .or => orU | .lt => lessThanU | .gt => greaterThanU
   | .index => indexU | .hasIndex => hasIndexU
   | .hasElement h => fun a b => hasElementU a b h
